@@ -272,6 +272,9 @@ def run(name, repo, timeout_s):
         base += [z3.Int(nm) >= 0, z3.Int(nm) <= 1]
     # a stream half is in exactly one place: connection or call (the type's own invariant)
     base += [z3.Not(z3.And(cr_p == 1, sr_p == 1)), z3.Not(z3.And(cw_p == 1, sw_p == 1))]
+    # the call's two private slots are filled and emptied together by send / recv (no public access): a pre-state with
+    # only one of them is reached by no history (the connection's slots are public fields, so they stay independent)
+    base += [sr_p == sw_p]
     conn = ms.Struct({0: cr, 1: cw, 2: ms.Opaque("address"), 3: ms.Opaque("stream"), 4: ms.Opaque("child"), 5: ms.Opaque("tempdir")}, "Connection")
     call = ms.Struct({0: ms.Ref("__arc", ()), 1: rq, 2: me, 3: sr, 4: sw, 5: z3.Bool("call_continues")}, "MethodCall")
     init = {params[0]: ms.Ref("__call", ()), "__call": call, "__arc": ms.Ref("__conn", ()), "__conn": conn}
@@ -520,7 +523,9 @@ def run_error_kind(repo, timeout_s):
             ev = lambda t: m.eval(t, model_completion=True).as_long()  # noqa: E731
             nm = ev(name)
             idx = next((i for i, (full, _) in enumerate(STANDARD) if ids.get(full) == nm), 4)
-            failed = (label, [2, idx, ev(err_p), ev(par_p), 1 - ev(parse), ev(fld_p)])
+            text = next((k for k, v in ids.items() if v == nm and k), "")
+            failed = (label, [2, idx, ev(err_p), ev(par_p), 1 - ev(parse), ev(fld_p)] +
+                      ([len(text.encode())] + list(text.encode()) if idx == 4 and text else [0]))
         solver.pop()
         if r == z3.unknown:
             raise Unsupported("solver gave no answer")
